@@ -156,6 +156,313 @@ def x1(run, model, vh, quick):
     report_x1(run, "importCompileCommands", diffs, "build the one-entry JSON from the case fields (dir file kind payload) | build/harness/vh_c32 json")
 
 
+# ------------------------------------------------------------------ X2: the real binary, the real shell, the real compiler
+PROBE_RE = re.compile(r"^\s*int\s+(vmark_(\d+)|probe_(\w+)|vinc_(\d+))\s*(?:=\s*(.*?))?\s*;\s*$")
+KNOWN_WHAT = {
+    "undef-then-define": "-UX before -DX: the compiler defines X, the imported configuration leaves it undefined (undefs is an unordered set that always wins)",
+    "redefine-first-wins": "-DX=1 -DX=2: the compiler uses the last definition, the imported configuration the first",
+    "backslash-escape": "backslash before a character other than \\ \" ' space (e.g. CMake's \\$ inside double quotes) is kept by collectArgs",
+    "define-semicolon": "-DR=a;b: the ';' inside the macro body splits the definition into R=a and b=1",
+    "optionlike-word": "a word GCC reads as an operand (e.g. -o /Data/o.o, a source /Data/src/a.c, -include -Ifoo.h) is read as /D /U /I -D -I option",
+}
+
+
+def parse_probes(text):
+    """-> {mark: {"m": {name: value}, "i": set(dir index)}} from preprocessed text (cppcheck -E or gcc -E -P)."""
+    res, cur = {}, None
+    for line in text.splitlines():
+        m = PROBE_RE.match(line)
+        if not m:
+            continue
+        if m.group(2) is not None:
+            cur = res.setdefault(int(m.group(2)), {"m": {}, "i": set()})
+        elif cur is not None and m.group(3) is not None:
+            cur["m"][m.group(3)] = re.sub(r"\s+", "", m.group(5) or "")
+        elif cur is not None and m.group(4) is not None:
+            cur["i"].add(int(m.group(4)))
+    return res
+
+
+def parse_verbose(text):
+    """-> {path: (Defines line, Undefines line, Includes line)} from `cppcheck -v` output."""
+    res, lines = {}, text.splitlines()
+    for k, line in enumerate(lines):
+        if line.startswith("Checking ") and line.endswith(" ...") and k + 3 < len(lines) and lines[k + 1].startswith("Defines:"):
+            res[line[len("Checking "):-len(" ...")]] = (lines[k + 1], lines[k + 2], lines[k + 3])
+    return res
+
+
+def rep_lines(fields, k):
+    """Defines/Undefines/Includes lines that -v prints for a representation encoded as lenc incs, lenc sys, defs, lenc undefs, std."""
+    def take(k):
+        n = int(fields[k])
+        return fields[k + 1:k + 1 + n], k + 1 + n
+    incs, k = take(k)
+    sys_, k = take(k)
+    defs = fields[k]
+    undefs, k = take(k + 1)
+    std = fields[k]
+    L = lambda b: b.decode("latin-1")
+    return ("Defines:" + L(defs), "Undefines:" + ";".join(" " + L(u) for u in undefs), "Includes:" + "".join(" -I" + L(i) for i in incs)), std
+
+
+def probes_of(fields, names):
+    """model/spec probe encoding (U | D lhs body per name) -> {name: value}"""
+    out, k = {}, 1
+    for n in names:
+        if fields[k] == b"U":
+            k += 1
+        else:
+            lhs, body = fields[k + 1], fields[k + 2]
+            key = n.decode()
+            if b"(" in lhs:      # FN(a): the probe expands FN(7)
+                body = body.replace(b"a", b"7") if body != b"abc" else body
+            out[key] = re.sub(r"\s+", "", body.decode("latin-1"))
+            k += 3
+    return out
+
+
+def classify_macro(argv, name):
+    ev = []
+    k = 1
+    while k < len(argv):
+        a = argv[k]
+        for pre, kind in ((b"-D", "D"), (b"-U", "U")):
+            if a == pre and k + 1 < len(argv):
+                ev.append((kind, argv[k + 1]))
+                k += 1
+                break
+            if a.startswith(pre) and len(a) > 2:
+                ev.append((kind, a[2:]))
+                break
+        k += 1
+    nm = lambda v: re.split(rb"[=(]", v, 1)[0]
+    mine = [(kind, v) for kind, v in ev if nm(v) == name.encode() or (kind == "D" and b";" in v)]
+    if any(kind == "D" and b";" in v for kind, v in mine):
+        return "define-semicolon"
+    seen_u = False
+    for kind, v in mine:
+        if kind == "U":
+            seen_u = True
+        elif seen_u:
+            return "undef-then-define"
+    if sum(1 for kind, v in mine if kind == "D") > 1:
+        return "redefine-first-wins"
+    return None
+
+
+def x2(run, model, quick):
+    rng = run.rng
+    ndb, K = (4, 30) if quick else (60, 40)
+    names = G.PROBE_MACROS + [b"FN"]
+    root = tempfile.mkdtemp(prefix="c32_", dir="/tmp")
+    stats = {"oracle_gcc_runs": 0, "oracle_gcc_failed_or_skipped": 0, "isystem_only_dirs_ignored": 0}
+    try:
+        src = os.path.join(root, "w", "src")
+        os.makedirs(src)
+        for k, d in enumerate(G.PROBE_DIRS):
+            dd = os.path.normpath(os.path.join(src, d.decode()))
+            os.makedirs(dd, exist_ok=True)
+            open(os.path.join(dd, "vprobe_%d.h" % k), "w").write("int vinc_%d ;\n" % k)
+        stub = os.path.join(root, "stub")      # keeps the real compiler going when a probe header is not on its path
+        os.makedirs(stub)
+        for k in range(len(G.PROBE_DIRS)):
+            open(os.path.join(stub, "vprobe_%d.h" % k), "w").write("int vstub_%d ;\n" % k)
+        for db in range(ndb):
+            ents = []
+            wit = []
+            if db == 0:
+                f = lambda i: b"f0_%d.c" % i
+                wit = [("a", [b"gcc", b"-UX", b"-DX", b"-c", f(0)]), ("a", [b"gcc", b"-DX=1", b"-DX=2", b"-c", f(1)]),
+                       ("c", [b"gcc \"-DT=a\\$b\" -c " + f(2)]), ("a", [b"gcc", b"-DR=a;b", b"-c", f(3)]),
+                       ("a", [b"gcc", b"-c", f(4), b"-o", b"/Data/o.o"]), ("a", [b"/Users/me/bin/cc", b"-Iinc", b"-c", f(5)]),
+                       ("c", [b"gcc -U_F -D_F=2 -Iinc -c " + f(6)])]
+            for i in range(K):
+                fn = b"f%d_%d.c" % (db, i)
+                open(os.path.join(src, fn.decode()), "w").write(G.probe_source(i))
+                if i < len(wit):
+                    kind, payload = wit[i]
+                else:
+                    args = G.gen_e2e_args(rng, fn, wild=rng.choice([0.0, 0.05, 0.15]))
+                    if rng.random() < 0.5:
+                        kind, payload = "a", args
+                    else:
+                        kind, payload = "c", [G.join_args(args, rng.choice(G.STYLES), rng)]
+                ents.append((fn, kind, payload))
+            dbfile = os.path.join(root, "w", "compile_commands_%d.json" % db)
+            import json
+            js = []
+            for fn, kind, payload in ents:
+                e = {"directory": src, "file": fn.decode()}
+                if kind == "c":
+                    e["command"] = payload[0].decode("latin-1")
+                else:
+                    e["arguments"] = [a.decode("latin-1") for a in payload]
+                js.append(e)
+            json.dump(js, open(dbfile, "w"))
+            rc, outv, _ = vlib.sh([vlib.CPPCHECK, "--project=" + dbfile, "-v", "-j1"], timeout=600)
+            rc, oute, _ = vlib.sh([vlib.CPPCHECK, "--project=" + dbfile, "-E", "-j1"], timeout=600)
+            verb, bprobes = parse_verbose(outv), parse_probes(oute)
+            sdir = src.encode()
+            m_entry = model_eval(model, "entry", [[sdir, fn, kind] + payload for fn, kind, payload in ents])
+            m_entrym = model_eval(model, "entrym", [[len(names)] + names + [sdir, fn, kind] + payload for fn, kind, payload in ents])
+            m_words = model_eval(model, "shwords", [[payload[0]] if kind == "c" else [b""] for fn, kind, payload in ents])
+            m_coll = model_eval(model, "collect", [[payload[0]] if kind == "c" else [b""] for fn, kind, payload in ents])
+            for i, (fn, kind, payload) in enumerate(ents):
+                path = os.path.join(src, fn.decode())
+                me = m_entry[i]
+                # the argument vector as the shell / the array gives it (specification side)
+                if kind == "c":
+                    if m_words[i][0] != b"1":
+                        run.count("X2 spec", None, bucket="command outside the expansion-free sublanguage")
+                        argv = None
+                    else:
+                        argv = m_words[i][1:]
+                else:
+                    argv = payload
+                replay = {"entry": js[i], "how": "write the entry into compile_commands.json; build/repo/bin/cppcheck --project=<abs path> -v (and -E)"}
+                bucket = ("command" if kind == "c" else "arguments")
+                if me[0] != b"1":
+                    run.count("X2 tie -v", None, bucket=bucket + ",import-rejected-or-undefined")
+                    continue
+                # A: binary -v lines vs model
+                exp, _std = rep_lines(me, 2)
+                got = verb.get(path)
+                run.count("X2 tie -v", None, nontrivial=(kind, tuple(payload)), bucket=bucket)
+                if got != exp:
+                    run.stream("X2 tie -v")["disagreements"] += 1
+                    run.violation("x2v:" + hashlib.sha1(repr((kind, payload)).encode()).hexdigest()[:12],
+                                  "cppcheck -v prints %r for the entry, the model says %r" % (got, exp), dict(replay, model=list(exp), binary=list(got or [])))
+                # B: binary -E macro probes vs model (import + preprocessor reading)
+                bp = bprobes.get(i, {"m": {}, "i": set()})
+                mp = probes_of(m_entrym[i], names)
+                bm = {k: v for k, v in bp["m"].items() if k != "STDCV"}
+                run.count("X2 tie -E", None, nontrivial=(kind, tuple(payload)), bucket="%d macros defined" % len(mp))
+                if bm != mp:
+                    run.stream("X2 tie -E")["disagreements"] += 1
+                    run.violation("x2e:" + hashlib.sha1(repr((kind, payload)).encode()).hexdigest()[:12],
+                                  "cppcheck -E shows macros %r, model (import + first-define-wins/undef-wins reading) says %r" % (bm, mp),
+                                  dict(replay, model=mp, binary=bm))
+                if argv is None:
+                    continue
+                # E: binary representation vs what the options specify (C32_parse_args_exact's right-hand side)
+                sp = model_eval(model, "gccrep", [[sdir] + argv])[0]
+                if sp[0] in (b"N", b"V", b"F", b"B"):
+                    run.count("X2 spec", None, bucket="gcc rejects the line" if sp[0] == b"N" else "env/fuel")
+                    continue
+                hyp = sp[0] == b"1"
+                sexp, sstd = rep_lines(sp, 1)
+                shell_differs = kind == "c" and m_coll[i][1:] != [w for w in argv if w]
+                run.count("X2 spec", None, nontrivial=(kind, tuple(payload)),
+                          bucket=("hypotheses hold" if hyp and not shell_differs else "outside hypotheses") + ("" if got == sexp else ", differs"))
+                keys = set()
+                if got is not None and got != sexp:
+                    run.stream("X2 spec")["disagreements"] += 1
+                    if not hyp:
+                        keys.add("optionlike-word")
+                    elif shell_differs:
+                        keys.add("backslash-escape")
+                    else:
+                        keys.add("x2s:" + hashlib.sha1(repr((kind, payload)).encode()).hexdigest()[:12])
+                # C/D: the real compiler on the same line (macro state, include resolution, __STDC_VERSION__)
+                gp = None
+                for cand in ("out.o", "-Dx.o", "dep.d", fn.decode()[:-2] + ".d"):
+                    try:
+                        os.remove(os.path.join(src, cand))
+                    except OSError:
+                        pass
+                if kind == "c":
+                    p = subprocess.run(["/bin/sh", "-c", payload[0].decode("latin-1") + " -E -P -idirafter " + stub], cwd=src, stdout=subprocess.PIPE, stderr=subprocess.PIPE)
+                else:
+                    p = subprocess.run(["gcc"] + [a.decode("latin-1") for a in payload[1:]] + ["-E", "-P", "-idirafter", stub], cwd=src, stdout=subprocess.PIPE, stderr=subprocess.PIPE)
+                stats["oracle_gcc_runs"] += 1
+                text = p.stdout.decode("latin-1")
+                if p.returncode == 0 and not text.strip():
+                    for cand in ("out.o", "-Dx.o"):
+                        if os.path.exists(os.path.join(src, cand)):
+                            text = open(os.path.join(src, cand), encoding="latin-1").read()
+                if p.returncode == 0 and "vmark_" in text:
+                    gp = parse_probes(text).get(i)
+                if gp is None:
+                    stats["oracle_gcc_failed_or_skipped"] += 1
+                else:
+                    skip = {"__PIC__", "__pic__", "STDCV"}   # platform defaults (default-pie) / default standard
+                    gm = {k: v for k, v in gp["m"].items() if k not in skip}
+                    bm2 = {k: v for k, v in bp["m"].items() if k not in skip}
+                    sm = {k: v for k, v in probes_of(model_eval(model, "gccm", [[len(names)] + names + argv])[0], names).items() if k not in skip}
+                    run.count("X2 gcc oracle", None, nontrivial=(kind, tuple(payload)), bucket="macros agree" if gm == bm2 else "macros differ")
+                    if sm != gm:
+                        run.violation("spec:" + hashlib.sha1(repr(argv).encode()).hexdigest()[:12],
+                                      "specification gcc_macros says %r, the real gcc says %r" % (sm, gm), dict(replay, spec=sm, gcc=gm), found_input=False)
+                    if gm != bm2:
+                        run.stream("X2 gcc oracle")["disagreements"] += 1
+                        for nme in set(gm) | set(bm2):
+                            if gm.get(nme) != bm2.get(nme):
+                                if not hyp:
+                                    keys.add("optionlike-word")
+                                elif shell_differs:
+                                    keys.add("backslash-escape")
+                                else:
+                                    keys.add(classify_macro(argv, nme) or "x2m:" + hashlib.sha1(repr((kind, payload, nme)).encode()).hexdigest()[:12])
+                    if sstd and "STDCV" in gp["m"] and gp["m"].get("STDCV") != bp["m"].get("STDCV"):
+                        keys.add("x2std:" + sstd.decode("latin-1"))
+                    if gp["i"] != bp["i"]:
+                        extra = gp["i"] - bp["i"]
+                        sysd = {k for k, d in enumerate(G.PROBE_DIRS) if any(argv[j] == b"-isystem" and os.path.normpath(argv[j + 1].decode()) == os.path.normpath(d.decode())
+                                                                               for j in range(len(argv) - 1))}
+                        if bp["i"] - gp["i"] or not extra <= sysd:
+                            keys.add("optionlike-word" if not hyp else "backslash-escape" if shell_differs else
+                                     "x2i:" + hashlib.sha1(repr((kind, payload)).encode()).hexdigest()[:12])
+                        else:
+                            stats["isystem_only_dirs_ignored"] += 1
+                for key in keys:
+                    what = KNOWN_WHAT.get(key, "cppcheck analyses the file with other options than the compile command specifies")
+                    run.violation(key, what, dict(replay, binary_v=list(got or []), specified=list(sexp), binary_probes=bp["m"],
+                                                  gcc_probes=(gp or {}).get("m"), key=key))
+    finally:
+        shutil.rmtree(root, ignore_errors=True)
+    run.extra.update(stats)
+
+
+def sh_validation(run, model, quick):
+    """The specification sh_words against the real /bin/sh, shlex_join against Python's shlex.join."""
+    rng = run.rng
+    n = 300 if quick else 5000
+    cmds = []
+    for _ in range(n * 3):
+        c = G.gen_command(rng)
+        if b"\x00" not in c and c not in cmds and not c.endswith(b"\\"):
+            cmds.append(c)
+        if len(cmds) >= n:
+            break
+    spec = model_eval(model, "shwords", [[c] for c in cmds])
+    bad = 0
+    for c, s in zip(cmds, spec):
+        if s[0] != b"1":
+            run.count("spec sh_words vs /bin/sh", None, bucket="outside sublanguage/unterminated")
+            continue
+        p = subprocess.run(["/bin/sh", "-c", "for a in " + c.decode("latin-1") + "\ndo printf '%s\\0' \"$a\"; done"],
+                           stdout=subprocess.PIPE, stderr=subprocess.PIPE)
+        got = p.stdout.split(b"\x00")[:-1] if p.returncode == 0 else None
+        run.count("spec sh_words vs /bin/sh", None, nontrivial=c, bucket="ok")
+        if got != s[1:]:
+            bad += 1
+            if bad <= 2:
+                run.violation("spec-sh:" + c.hex()[:24], "specification sh_words(%r) = %r but /bin/sh gives %r" % (c, s[1:], got),
+                              {"command": vlib.show(c), "spec": vlib.show(s[1:]), "sh": vlib.show(got) if got is not None else None}, found_input=False)
+    import shlex
+    vecs = [G.gen_args(rng, wild=0.4) for _ in range(n)]
+    vecs = [v for v in vecs if all(b"\x00" not in a for a in v)]
+    mj = model_eval(model, "shlex", vecs)
+    for v, m in zip(vecs, mj):
+        py = " ".join(shlex.quote(a.decode("latin-1")) for a in v).encode("latin-1")
+        run.count("spec shlex_join vs Python shlex", None, nontrivial=tuple(v), bucket="ok")
+        if (m[0] if m else b"") != py:
+            run.violation("spec-shlex:" + py.hex()[:24], "specification shlex_join differs from Python shlex.quote on %r" % (v,),
+                          {"args": vlib.show(v), "spec": vlib.show(m), "python": vlib.show(py)}, found_input=False)
+            break
+
+
 def check(run, replay):
     quick = run.tier == "quick"
     run.trusted_base += [
@@ -185,6 +492,8 @@ def check(run, replay):
         return
     vh = vlib.build_harness(PID)
     x1(run, model, vh, quick)
+    sh_validation(run, model, quick)
+    x2(run, model, quick)
 
 
 if __name__ == "__main__":
